@@ -933,12 +933,22 @@ theorem lookup_append (c : Cache) (k fn : List Char) (l : Level) :
     · simp [lookup, h]
     · simp [lookup, h, ih]
 
+/-- one qualified name always denotes objects with the same `name`, module-ness and kind: all that
+`privacyClass` reads besides the qualified name (`inContents` is not read) -/
+def Coherent (U : List Obj) : Prop :=
+  ∀ a ∈ U, ∀ b ∈ U, a.fullName = b.fullName →
+    a.name = b.name ∧ a.isModule = b.isModule ∧ a.kindNone = b.kindNone
+
+theorem privacyClass_congr (rules : List Rule) (a b : Obj) (hf : a.fullName = b.fullName)
+    (hn : a.name = b.name) (hm : a.isModule = b.isModule) (hk : a.kindNone = b.kindNone) :
+    (privacyClass rules [] a).1 = (privacyClass rules [] b).1 := by
+  simp only [privacyClass, systemPrivacyClass, lookup, decide, hf, hn, hm, hk]
+
 /-- every cache entry is the answer the rules give, for every object of `U` with that name -/
 def CacheOk (rules : List Rule) (U : List Obj) (c : Cache) : Prop :=
   ∀ fn l, lookup c fn = some l → ∀ ob ∈ U, ob.fullName = fn → (privacyClass rules [] ob).1 = .ok l
 
-theorem privacyClass_cached (rules : List Rule) (U : List Obj)
-    (hU : ∀ a ∈ U, ∀ b ∈ U, a.fullName = b.fullName → a = b)
+theorem privacyClass_cached (rules : List Rule) (U : List Obj) (hU : Coherent U)
     (c : Cache) (hc : CacheOk rules U c) (ob : Obj) (hob : ob ∈ U) :
     (privacyClass rules c ob).1 = (privacyClass rules [] ob).1 ∧
       CacheOk rules U (privacyClass rules c ob).2 := by
@@ -969,13 +979,13 @@ theorem privacyClass_cached (rules : List Rule) (U : List Obj)
             simp only [hl'] at hlk
             by_cases he : ob.fullName = fn
             · simp only [he, if_true, Option.some.injEq] at hlk
-              have : ob' = ob := hU ob' hob' ob hob (by rw [hfn, he])
-              subst this hlk
+              obtain ⟨h1, h2, h3⟩ := hU ob' hob' ob hob (by rw [hfn, he])
+              rw [privacyClass_congr rules ob' ob (by rw [hfn, he]) h1 h2 h3]
+              subst hlk
               simp [privacyClass, hm, systemPrivacyClass, lookup, hk, hd]
             · simp [he] at hlk
 
-theorem run_cached (rules : List Rule) (U : List Obj)
-    (hU : ∀ a ∈ U, ∀ b ∈ U, a.fullName = b.fullName → a = b) :
+theorem run_cached (rules : List Rule) (U : List Obj) (hU : Coherent U) :
     ∀ (qs : List Obj) (c : Cache), (∀ q ∈ qs, q ∈ U) → CacheOk rules U c →
       (run rules c qs).1 = qs.map (fun ob => (privacyClass rules [] ob).1)
   | [], _, _, _ => rfl
@@ -986,18 +996,180 @@ theorem run_cached (rules : List Rule) (U : List Obj)
     simp only [run, List.map_cons]
     rw [← h1, ← ih]
 
+theorem cacheOk_nil (rules : List Rule) (U : List Obj) : CacheOk rules U [] :=
+  fun _ _ h => by simp [lookup] at h
+
 /-
 Full statement, false of the model (and of the code, for objects built by hand):
     ∀ rules qs, (run rules [] qs).1 = qs.map (fun ob => (privacyClass rules [] ob).1)
 The cache is keyed by qualified name alone, the answer also reads `ob.name` and `ob.kind`.
 -/
 /-- **The cache is transparent.**  For any rule list and any query history — any objects, any
-order, any repetitions — in which one qualified name always denotes the same object (same `name`,
-same kind), every answer is the one a cache-less computation gives. -/
-theorem cache_transparent (rules : List Rule) (qs : List Obj)
-    (hU : ∀ a ∈ qs, ∀ b ∈ qs, a.fullName = b.fullName → a = b) :
+order, any repetitions — in which one qualified name always denotes objects with the same `name`
+and kind, every answer is the one a cache-less computation gives. -/
+theorem cache_transparent (rules : List Rule) (qs : List Obj) (hU : Coherent qs) :
     (run rules [] qs).1 = qs.map (fun ob => (privacyClass rules [] ob).1) :=
-  run_cached rules qs hU qs [] (fun _ h => h) (fun _ _ h => by simp [lookup] at h)
+  run_cached rules qs hU qs [] (fun _ h => h) (cacheOk_nil rules qs)
+
+/-! ### … and stays transparent when objects are moved -/
+
+theorem isPrivate_cached (rules : List Rule) (U : List Obj) (hU : Coherent U)
+    (c : Cache) (hc : CacheOk rules U c) (ob : Obj) (hob : ob ∈ U) :
+    (isPrivate rules c ob).1 = (isPrivate rules [] ob).1 ∧ CacheOk rules U (isPrivate rules c ob).2 := by
+  obtain ⟨h1, h2⟩ := privacyClass_cached rules U hU c hc ob hob
+  simp only [isPrivate]
+  cases hp : privacyClass rules c ob with
+  | mk r c' =>
+    cases hq : privacyClass rules [] ob with
+    | mk r' c'' =>
+      rw [hp, hq] at h1; rw [hp] at h2
+      simp only at h1 h2; subst h1
+      cases r <;> exact ⟨rfl, h2⟩
+
+theorem isVisible_cached (rules : List Rule) (U : List Obj) (hU : Coherent U) :
+    ∀ (chain : List Obj) (c : Cache), (∀ o ∈ chain, o ∈ U) → CacheOk rules U c →
+      (isVisible rules c chain).1 = visPure rules chain ∧ CacheOk rules U (isVisible rules c chain).2
+  | [], c, _, hc => ⟨rfl, hc⟩
+  | ob :: parents, c, hch, hc => by
+    obtain ⟨h1, h2⟩ := privacyClass_cached rules U hU c hc ob (hch ob (by simp))
+    have ih := isVisible_cached rules U hU parents (privacyClass rules c ob).2
+      (fun o ho => hch o (List.mem_cons_of_mem _ ho)) h2
+    rw [isVisible, visPure.eq_def]
+    cases hp : privacyClass rules c ob with
+    | mk r c' =>
+      rw [hp] at h1 h2 ih
+      simp only at h1 h2 ih
+      dsimp only
+      rw [← h1]
+      cases r with
+      | err e => exact ⟨rfl, h2⟩
+      | ok l =>
+        by_cases hl : l = .hidden
+        · subst hl; exact ⟨rfl, h2⟩
+        · cases parents with
+          | nil => simp only [ne_eq, hl, not_false_eq_true, if_true]; exact ⟨trivial, h2⟩
+          | cons p ps =>
+            simp only [ne_eq, hl, not_false_eq_true, if_true]
+            by_cases hcn : ob.inContents = true
+            · simp only [hcn, if_true]; exact ih
+            · simp only [hcn, if_false, Bool.false_eq_true]; exact ⟨trivial, h2⟩
+
+theorem mem_setObj : ∀ (w : World) (i : Nat) (o x : Obj), x ∈ setObj w i o → x ∈ w ∨ x = o
+  | [], _, _, _, h => by simp [setObj] at h
+  | _ :: w, 0, o, x, h => by
+    simp only [setObj, List.mem_cons] at h
+    rcases h with h | h
+    · exact Or.inr h
+    · exact Or.inl (List.mem_cons_of_mem _ h)
+  | y :: w, i + 1, o, x, h => by
+    simp only [setObj, List.mem_cons] at h
+    rcases h with h | h
+    · exact Or.inl (by simp [h])
+    · rcases mem_setObj w i o x h with h | h
+      · exact Or.inl (List.mem_cons_of_mem _ h)
+      · exact Or.inr h
+
+theorem mem_applyMove : ∀ (upd : List (Nat × Obj)) (w : World) (x : Obj),
+    x ∈ applyMove w upd → x ∈ w ∨ ∃ p ∈ upd, x = p.2
+  | [], w, x, h => Or.inl h
+  | (i, o) :: u, w, x, h => by
+    rcases mem_applyMove u (setObj w i o) x h with h | ⟨p, hp, e⟩
+    · rcases mem_setObj w i o x h with h | h
+      · exact Or.inl h
+      · exact Or.inr ⟨(i, o), by simp, h⟩
+    · exact Or.inr ⟨p, List.mem_cons_of_mem _ hp, e⟩
+
+theorem mem_getChain (w : World) (ids : List Nat) (o : Obj) (h : o ∈ getChain w ids) : o ∈ w := by
+  simp only [getChain, List.mem_filterMap] at h
+  obtain ⟨i, _, hi⟩ := h
+  exact List.mem_of_getElem? hi
+
+theorem runEvents_cached (rules : List Rule) (U : List Obj) (hU : Coherent U) :
+    ∀ (es : List Event) (w : World) (c : Cache), (∀ o ∈ w, o ∈ U) →
+      (∀ upd, Event.move upd ∈ es → ∀ p ∈ upd, p.2 ∈ U) → CacheOk rules U c →
+      (runEvents rules w c es).1 = pureEvents rules w es
+  | [], _, _, _, _, _ => rfl
+  | .cls i :: es, w, c, hw, hes, hc => by
+    have hes' : ∀ upd, Event.move upd ∈ es → ∀ p ∈ upd, p.2 ∈ U :=
+      fun upd h => hes upd (List.mem_cons_of_mem _ h)
+    simp only [runEvents, pureEvents]
+    cases hi : w[i]? with
+    | none => simp [runEvents_cached rules U hU es w c hw hes' hc]
+    | some ob =>
+      obtain ⟨h1, h2⟩ := privacyClass_cached rules U hU c hc ob (hw ob (List.mem_of_getElem? hi))
+      simp [runEvents_cached rules U hU es w _ hw hes' h2, h1]
+  | .prv i :: es, w, c, hw, hes, hc => by
+    have hes' : ∀ upd, Event.move upd ∈ es → ∀ p ∈ upd, p.2 ∈ U :=
+      fun upd h => hes upd (List.mem_cons_of_mem _ h)
+    simp only [runEvents, pureEvents]
+    cases hi : w[i]? with
+    | none => simp [runEvents_cached rules U hU es w c hw hes' hc]
+    | some ob =>
+      obtain ⟨h1, h2⟩ := isPrivate_cached rules U hU c hc ob (hw ob (List.mem_of_getElem? hi))
+      simp [runEvents_cached rules U hU es w _ hw hes' h2, h1]
+  | .vis ids :: es, w, c, hw, hes, hc => by
+    have hes' : ∀ upd, Event.move upd ∈ es → ∀ p ∈ upd, p.2 ∈ U :=
+      fun upd h => hes upd (List.mem_cons_of_mem _ h)
+    obtain ⟨h1, h2⟩ := isVisible_cached rules U hU (getChain w ids) c
+      (fun o ho => hw o (mem_getChain w ids o ho)) hc
+    simp [runEvents, pureEvents, runEvents_cached rules U hU es w _ hw hes' h2, h1]
+  | .move upd :: es, w, c, hw, hes, hc => by
+    have hes' : ∀ upd, Event.move upd ∈ es → ∀ p ∈ upd, p.2 ∈ U :=
+      fun upd h => hes upd (List.mem_cons_of_mem _ h)
+    have hw' : ∀ o ∈ applyMove w upd, o ∈ U := by
+      intro o ho
+      rcases mem_applyMove upd w o ho with h | ⟨p, hp, e⟩
+      · exact hw o h
+      · rw [e]; exact hes upd (by simp) p hp
+    simp only [runEvents, pureEvents]
+    exact runEvents_cached rules U hU es (applyMove w upd) c hw' hes' hc
+
+/-- every record an object ever has during the history: the initial world and what the moves write -/
+def records (w : World) : List Event → List Obj
+  | [] => w
+  | .move upd :: es => upd.map (·.2) ++ records w es
+  | _ :: es => records w es
+
+theorem mem_records_world (w : World) : ∀ (es : List Event) (o : Obj), o ∈ w → o ∈ records w es
+  | [], _, h => h
+  | .move _ :: es, o, h => List.mem_append_right _ (mem_records_world w es o h)
+  | .cls _ :: es, o, h => mem_records_world w es o h
+  | .prv _ :: es, o, h => mem_records_world w es o h
+  | .vis _ :: es, o, h => mem_records_world w es o h
+
+theorem mem_records_move (w : World) : ∀ (es : List Event) (upd : List (Nat × Obj)),
+    Event.move upd ∈ es → ∀ p ∈ upd, p.2 ∈ records w es
+  | [], _, h, _, _ => by simp at h
+  | .move u :: es, upd, h, p, hp => by
+    simp only [List.mem_cons, Event.move.injEq] at h
+    rcases h with h | h
+    · subst h; exact List.mem_append_left _ (List.mem_map.mpr ⟨p, hp, rfl⟩)
+    · exact List.mem_append_right _ (mem_records_move w es upd h p hp)
+  | .cls _ :: es, upd, h, p, hp => by
+    simp only [List.mem_cons, reduceCtorEq, false_or] at h
+    exact mem_records_move w es upd h p hp
+  | .prv _ :: es, upd, h, p, hp => by
+    simp only [List.mem_cons, reduceCtorEq, false_or] at h
+    exact mem_records_move w es upd h p hp
+  | .vis _ :: es, upd, h, p, hp => by
+    simp only [List.mem_cons, reduceCtorEq, false_or] at h
+    exact mem_records_move w es upd h p hp
+
+/-- **The cache stays transparent under moves.**  After any sequence of queries
+(`privacyClass`, `isVisible`, `isPrivate`) and moves (`reparent`: a subtree changes its qualified
+names), every answer equals the cache-less answer for the record — in particular the *current*
+qualified name — the object has at that moment; provided that, over the whole history, one
+qualified name always denotes objects with the same `name` and kind. -/
+theorem cache_transparent_moves (rules : List Rule) (w : World) (es : List Event)
+    (hU : Coherent (records w es)) :
+    (runEvents rules w [] es).1 = pureEvents rules w es :=
+  runEvents_cached rules (records w es) hU es w [] (mem_records_world w es)
+    (mem_records_move w es) (cacheOk_nil rules _)
+
+/-- ask `impl.H.run` under `HIDDEN:impl.**`, move `H` to `api`, ask again: PUBLIC, not the stale HIDDEN -/
+example : (runEvents [⟨.hidden, ['i', '.', '*', '*']⟩] [⟨['i', '.', 'H', '.', 'r'], ['r'], false, false, true⟩] []
+    [.cls 0, .move [(0, ⟨['a', '.', 'H', '.', 'r'], ['r'], false, false, true⟩)], .cls 0]).1
+    = [.lvl (.ok .hidden), .lvl (.ok .pub)] := by decide
 
 /-- two objects with one qualified name (a child `_x.s` of `m`, a child `s` of `m._x`): the second
 query is answered from the cache with the first one's class -/
